@@ -297,24 +297,75 @@ pub enum Built {
     Panicked(String),
 }
 
+thread_local! {
+    /// which public entry point `build` goes through (the driver rotates it): 0 Def + Ndl::new + Sim::node,
+    /// 1 Ndl::from_str + Sim::node, 2 Def + Sim::nodes_from_ndl, 3 Sim::with_ndl(file), 4 Ndl::from_file + Sim::node
+    pub static ENTRY: std::cell::Cell<u8> = const { std::cell::Cell::new(0) };
+}
+
+pub const ENTRY_NAMES: [&str; 5] = ["Ndl::new", "Ndl::from_str", "Sim::nodes_from_ndl", "Sim::with_ndl(file)", "Ndl::from_file"];
+
+fn temp_document(text: &str) -> std::path::PathBuf {
+    let p = std::env::temp_dir().join(format!("verif-c18-{}-{:?}.yml", std::process::id(), std::thread::current().id()));
+    std::fs::write(&p, text).expect("temp file for the description");
+    p
+}
+
 pub fn build(text: &str) -> Built {
     CREATED.with(|c| c.borrow_mut().clear());
+    let entry = if cfg!(miri) { ENTRY.with(std::cell::Cell::get) % 3 } else { ENTRY.with(std::cell::Cell::get) };
     let r = vcommon::catch(|| {
-        let def: Def = match serde_yml::from_str(text) {
-            Ok(d) => d,
-            Err(e) => return Built::Error { stage: "parse", kind: "Parse".into(), display: e.to_string() },
-        };
-        if let Err(e) = des_net_utils::ndl::transform(&def) {
-            return Built::Error { stage: "transform", kind: format!("{:?}", e.kind), display: e.to_string() };
-        }
         let mut sim = Sim::new(());
         let mut registry = full_registry!();
-        let ndl = match Ndl::new(&mut registry, &def) {
-            Ok(n) => n,
-            Err(e) => return Built::Error { stage: "transform", kind: format!("{:?}", e.kind), display: e.to_string() },
-        };
-        if let Err(e) = sim.node("", ndl) {
-            return Built::Error { stage: "build", kind: format!("{:?}", e.kind), display: e.to_string() };
+        match entry {
+            1 | 4 => {
+                let ndl = if entry == 1 {
+                    Ndl::from_str(&mut registry, text)
+                } else {
+                    let path = temp_document(text);
+                    let r = Ndl::from_file(&mut registry, &path);
+                    let _ = std::fs::remove_file(&path);
+                    r
+                };
+                let ndl = match ndl {
+                    Ok(n) => n,
+                    Err(e) => return Built::Error { stage: "parse / transform", kind: format!("{:?}", e.kind), display: e.to_string() },
+                };
+                if let Err(e) = sim.node("", ndl) {
+                    return Built::Error { stage: "build", kind: format!("{:?}", e.kind), display: e.to_string() };
+                }
+            }
+            3 => {
+                let path = temp_document(text);
+                let r = sim.with_ndl(&path, &mut registry);
+                let _ = std::fs::remove_file(&path);
+                match r {
+                    Ok(s) => sim = s,
+                    Err(e) => return Built::Error { stage: "parse / transform / build", kind: format!("{:?}", e.kind), display: e.to_string() },
+                }
+            }
+            _ => {
+                let def: Def = match serde_yml::from_str(text) {
+                    Ok(d) => d,
+                    Err(e) => return Built::Error { stage: "parse", kind: "Parse".into(), display: e.to_string() },
+                };
+                if let Err(e) = des_net_utils::ndl::transform(&def) {
+                    return Built::Error { stage: "transform", kind: format!("{:?}", e.kind), display: e.to_string() };
+                }
+                if entry == 2 {
+                    if let Err(e) = sim.nodes_from_ndl(&def, &mut registry) {
+                        return Built::Error { stage: "build", kind: format!("{:?}", e.kind), display: e.to_string() };
+                    }
+                } else {
+                    let ndl = match Ndl::new(&mut registry, &def) {
+                        Ok(n) => n,
+                        Err(e) => return Built::Error { stage: "transform", kind: format!("{:?}", e.kind), display: e.to_string() },
+                    };
+                    if let Err(e) = sim.node("", ndl) {
+                        return Built::Error { stage: "build", kind: format!("{:?}", e.kind), display: e.to_string() };
+                    }
+                }
+            }
         }
         // observe the built simulation through the public API
         let mut got = Expected::default();
@@ -925,6 +976,10 @@ pub fn cmd(args: &Args) -> Report {
     let mut stop = false;
     for i in 0..cases {
         let doc = gen_doc(&mut rng);
+        // every second document goes through the plain entry point, the others rotate through the alternatives
+        let entry = if i % 2 == 0 { 0 } else { 1 + ((i / 2) % 4) as u8 };
+        ENTRY.with(|e| e.set(entry));
+        rep.count(&format!("documents_through_{}", ENTRY_NAMES[if cfg!(miri) { entry % 3 } else { entry } as usize].replace("::", "_").replace(['(', ')'], "_")), 1);
         vcommon::mark_case(&format!("c18:{}:{}:{}", args.seed, args.shard, i));
         let findings = check_valid(&doc);
         rep.eval();
@@ -956,7 +1011,7 @@ pub fn cmd(args: &Args) -> Report {
         }
         let valid_ok = findings.is_empty();
         for (kind, detail) in findings.into_iter().take(2) {
-            let case = json!({"driver": "desmon", "sub": "c18", "document": render(&doc), "doc": serde_json::to_value(&doc).unwrap()});
+            let case = json!({"driver": "desmon", "sub": "c18", "document": render(&doc), "doc": serde_json::to_value(&doc).unwrap(), "entry": entry});
             if !rep.violation(&format!("C18/{kind}"), &detail, case) {
                 stop = true;
             }
@@ -973,7 +1028,7 @@ pub fn cmd(args: &Args) -> Report {
                     rep.count("mutants_that_must_be_rejected", 1);
                 }
                 for (kind, detail) in f.into_iter().take(1) {
-                    let case = json!({"driver": "desmon", "sub": "c18", "document": text, "mutation": format!("{m:?}"), "must_reject": must_reject});
+                    let case = json!({"driver": "desmon", "sub": "c18", "document": text, "mutation": format!("{m:?}"), "must_reject": must_reject, "entry": entry});
                     if !rep.violation(&format!("C18/{kind}"), &detail, case) {
                         stop = true;
                     }
@@ -1003,7 +1058,9 @@ pub fn replay(v: &Value) -> i32 {
         return i32::from(!f.is_empty());
     }
     let text = v.get("document").and_then(Value::as_str).expect("document").to_string();
-    println!("{text}");
+    let entry = v.get("entry").and_then(Value::as_u64).unwrap_or(0) as u8;
+    ENTRY.with(|e| e.set(entry));
+    println!("{text}\nentry point: {}", ENTRY_NAMES[entry as usize % 5]);
     let f = if let Some(doc) = v.get("doc") {
         let doc: Doc = serde_json::from_value(doc.clone()).expect("doc");
         check_valid(&doc)
